@@ -11,7 +11,8 @@ R3 complete qualification : Sector._CreateFinalEquations builds its lookup from 
                             canonical name.
 R4 template closure       : every identifier in a framework-emitted right-hand-side template is, on the same sector, a
                             variable created by the class's constructor chain or its own generation method, a full name,
-                            the time index, a number or a permitted function."""
+                            the time index, a number or a permitted function.
+R5 separator tests        : every test of a name against a run of underscores uses the canonical separator '__'."""
 import ast
 
 from .. import cfg as cfgmod
@@ -88,10 +89,12 @@ def run(prog, check):
     # the sanitiser
     san = None
     cands_ = []
+    from ._common import sector_alias_rewriters
+    REWRITERS = sector_alias_rewriters(prog)
     for f in M.methods.values():
         fnode_ = flatten(prog, f).node
         if any(isinstance(n, ast.Attribute) and n.attr == 'Aliases' for n in ast.walk(fnode_)) and \
-                any(isinstance(c, ast.Call) and call_name(c) == '_ReplaceAliases' for c in ast.walk(fnode_)):
+                any(isinstance(c, ast.Call) and call_name(c) in REWRITERS for c in ast.walk(fnode_)):
             cands_.append(f)
     if cands_:
         # the pass itself, not the entry points it is inlined into: the smallest function that has both
@@ -311,7 +314,7 @@ def run(prog, check):
                      'a global equation that embeds one of several registered placeholders')
     # sector blocks: the pass visits every sector
     all_sectors = any(isinstance(n, ast.For) and 'GetSectors' in unparse(n.iter) and any(
-        isinstance(c, ast.Call) and call_name(c) == '_ReplaceAliases' for c in ast.walk(n)) for n in ast.walk(san_flat.node))
+        isinstance(c, ast.Call) and call_name(c) in REWRITERS for c in ast.walk(n)) for n in ast.walk(san_flat.node))
     check.ob('C05.R1', '%s::sink(sector-blocks)::rewritten-by-alias-pass' % san.key, all_sectors, san.where,
              'every sector\'s equation block is rewritten' if all_sectors else 'not every sector block is rewritten', 'any placeholder in a sector equation')
     # the lookup maps each alias to the canonical name of its (sector, variable)
@@ -511,6 +514,36 @@ def run(prog, check):
                          'identifier %s is used in a template of %s but no constructor or generation method of the class creates it on this sector: '
                          'the equation dangles unless another object happens to create it' % (v.show(), ci.name),
                          'a model in which that other object is absent')
+    # ---- R5: names are classified by the canonical separator ------------------------------------------------------
+    # A full name is <full code> + '__' + <local name>; every test in the package that asks whether a name (or a code) contains a run of
+    # underscores decides "local or already qualified" (utils.is_local_variable and its callers in external.py) or guards the separator
+    # itself (Sector.GetVariableName, AddVariable).  Such a test with any other run ('_', '___') classifies ordinary names like
+    # SUP_GOOD as full names: they are then written unqualified into another sector's equations.  Only forms whose literal is
+    # read off the syntax are judged; other spellings of the test are not.
+    n5 = 0
+    for fi in prog.all_functions():
+        if not prog.is_core(fi.module.rel):
+            continue
+        for n in ast.walk(fi.node):
+            lit_ = None
+            if isinstance(n, ast.Compare) and len(n.ops) == 1 and isinstance(n.ops[0], (ast.In, ast.NotIn)) and \
+                    isinstance(n.left, ast.Constant) and isinstance(n.left.value, str) and \
+                    isinstance(n.comparators[0], (ast.Name, ast.Attribute)):
+                lit_ = n.left.value
+            elif isinstance(n, ast.Call) and isinstance(n.func, ast.Attribute) and n.func.attr in ('find', 'count', 'index', 'rfind') and \
+                    len(n.args) == 1 and isinstance(n.args[0], ast.Constant) and isinstance(n.args[0].value, str) and \
+                    isinstance(n.func.value, (ast.Name, ast.Attribute)):
+                lit_ = n.args[0].value
+            if lit_ is None or not lit_ or set(lit_) != {'_'}:
+                continue
+            n5 += 1
+            check.saw(fi)
+            check.ob('C05.R5', '%s::separator-test(%s)' % (fi.key, unparse(n)), lit_ == '__', '%s:%d' % (fi.module.rel, n.lineno),
+                     "the test uses the canonical separator '__'" if lit_ == '__' else
+                     "names are classified by %r instead of the separator '__': a local name such as SUP_GOOD or LAG_F is taken for a full "
+                     "name (or a legal code is rejected), and is then written unqualified into the equations of another sector" % lit_,
+                     "a flow variable named GOLD_BUY handed to the external sector's money-transfer helpers")
+    check.floor('C05.R5', 1)
     check.floor('C05.R1', 8)
     check.floor('C05.R2', 8)
     check.floor('C05.R3', 4)
